@@ -62,7 +62,7 @@ pub fn lockstep(sc: &Scanner, spec: &[ModeSpec], table: &ScanTable, input: &str,
         let mut nones = 0;
         // at most one token per character, then `drive_after_none` more calls
         for _ in 0..(n_chars + 2 + drive_after_none) {
-            let m = it.next().map(|m| (m.token_type(), m.start(), m.end()));
+            let m = it.next().map(|m| bridge::tok(&m));
             let mode = it.current_mode();
             out.push((m, mode));
             if m.is_none() {
@@ -232,7 +232,7 @@ pub fn safety_scan(sc: &Scanner, input: &str, start: Option<usize>, extra_calls:
         let mut out = vec![];
         let mut nones = 0;
         for _ in 0..(n_chars + 2 + extra_calls) {
-            let m = it.next().map(|m| (m.token_type(), m.start(), m.end()));
+            let m = it.next().map(|m| bridge::tok(&m));
             out.push(m);
             if m.is_none() {
                 nones += 1;
